@@ -98,7 +98,8 @@ class Result:
             return False
         self.evaluations += d.get("evaluations", 0)
         for k, v in d.get("classes", {}).items():
-            self.classes[k] = self.classes.get(k, 0) + v
+            # counters add up over shards; calibration maxima ("..._max_...") are maxima
+            self.classes[k] = max(self.classes.get(k, 0), v) if "_max_" in k else self.classes.get(k, 0) + v
         self.nontrivial.update(d.get("nontrivial", []))
         # harnesses that test millions of inputs count their distinct non-trivial inputs themselves
         self.nontrivial_extra = getattr(self, "nontrivial_extra", 0) + d.get("classes", {}).get("nontrivial_count", 0)
@@ -195,13 +196,21 @@ def confirm_failures(prop, res):
     """Replay each failure 3x; returns list of confirmed (path, message)."""
     confirmed = []
     seen = set()
-    for hname, exe, mode, path, msg in res.failures:
+    # ordinary failures first, hangs last; at most 8 violations are reported per run and at most 2 recorded hangs are
+    # re-run (each costs up to 3 x 180 s) - one confirmed violation already decides the exit code
+    ordered = sorted(res.failures, key=lambda f: "-hang-" in os.path.basename(f[3]))
+    hangs_tried = 0
+    for hname, exe, mode, path, msg in ordered:
         if path in seen or not os.path.exists(path):
             continue
         seen.add(path)
         fails = 0
         detail = ""
         is_hang = "-hang-" in os.path.basename(path)
+        if len(confirmed) >= 8 or (is_hang and (hangs_tried >= 2 or (confirmed and hangs_tried >= 1))):
+            res.extra["failures_not_replayed_after_cap"] = res.extra.get("failures_not_replayed_after_cap", 0) + 1
+            continue
+        hangs_tried += is_hang
         for _ in range(3):
             # a recorded hang is re-run alone with a limit far above any normal case (cases take milliseconds)
             ok, out = replay_once(exe, mode, path, timeout=180 if is_hang else 900)
